@@ -580,9 +580,21 @@ def run_case(case, name, early=None):
     for idx in range(len(case.get("initial") or [])):
         sim.add_initial_method(ext, "run_initial", idx=idx)
 
+    def worker_idle():
+        """the run thread is back in its wait (or gone): only then is the command really over --
+        STOPPED is written before the thread clears its wake-up flag, and a command issued in
+        between overlaps the run thread's own transitions (C04's overlap clause, not this property)"""
+        w = getattr(sim, "_Simulator__worker", None)
+        if w is None:
+            return True
+        try:
+            return w.is_waiting() or w.is_finalized() or not w.is_alive()
+        except Exception:  # noqa
+            return True
+
     def wait_quiet():
         t0 = time.time()
-        while ((sim.run_state.name not in QUIET or sim.replication_state.name == "ENDING")
+        while ((sim.run_state.name not in QUIET or sim.replication_state.name == "ENDING" or not worker_idle())
                and time.time() - t0 < 6.0):
             time.sleep(0.0005)
         if sim.run_state.name not in QUIET or sim.replication_state.name == "ENDING":
